@@ -10,6 +10,7 @@ import (
 	"io"
 	"os"
 	"sort"
+	"time"
 
 	"github.com/syndtr/goleveldb/leveldb/storage"
 	"verif/simrt"
@@ -205,13 +206,17 @@ func (d *Disk) PendingFaults() bool {
 	return false
 }
 
+// crash hands control to the harness, which abandons the epoch's goroutines
+// (including the caller); the hook must not return.
 func (d *Disk) crash(f *Fault) {
-	if d.H.OnCrash != nil {
-		d.H.OnCrash(f)
+	if d.H.OnCrash == nil {
+		panic("simdisk: crash fault without OnCrash hook")
 	}
-	simrt.KillEpoch(d.Epoch)
-	// not reached when the caller belongs to the epoch
+	d.H.OnCrash(f)
+	panic("simdisk: OnCrash hook returned")
 }
+
+func timeMs(ms int) time.Duration { return time.Duration(ms) * time.Millisecond }
 
 func (d *Disk) mutate(op string, fd storage.FileDesc) {
 	if d.H.OnMutate != nil {
@@ -675,6 +680,14 @@ func (d *Disk) Synced(fd storage.FileDesc) int {
 		return f.synced
 	}
 	return 0
+}
+
+// Gen returns a number that changes whenever the file is re-created.
+func (d *Disk) Gen(fd storage.FileDesc) int {
+	if f, ok := d.files[fd]; ok {
+		return f.gen
+	}
+	return -1
 }
 
 // Meta returns the CURRENT pointer.
